@@ -59,21 +59,25 @@ def sh(cmd, cwd=None, timeout=None, input=None, env=None):
 
 
 class LakeLock:
-    """serialises lake invocations of concurrently running checks"""
+    """serialises lake invocations (and, for the checks that regenerate tables, extraction + build) of concurrently running
+    checks; re-entrant within one process"""
+    _depth = 0
+    _f = None
 
     def __enter__(self):
-        self.f = open(os.path.join(VERIF, ".lake.lock"), "w")
-        fcntl.flock(self.f, fcntl.LOCK_EX)
+        if LakeLock._depth == 0:
+            LakeLock._f = open(os.path.join(VERIF, ".lake.lock"), "w")
+            fcntl.flock(LakeLock._f, fcntl.LOCK_EX)
+        LakeLock._depth += 1
         return self
 
     def __exit__(self, *a):
-        fcntl.flock(self.f, fcntl.LOCK_UN)
-        self.f.close()
+        LakeLock._depth -= 1
+        if LakeLock._depth == 0:
+            fcntl.flock(LakeLock._f, fcntl.LOCK_UN)
+            LakeLock._f.close()
+            LakeLock._f = None
 
-
-# ----------------------------------------------------------------------------------------------
-# Lean side
-# ----------------------------------------------------------------------------------------------
 
 def write_if_changed(path, text):
     os.makedirs(os.path.dirname(path), exist_ok=True)
